@@ -38,10 +38,14 @@ Fixpoint random_values (fuel : nat) (sp : list hp) (tried : list vals) (seed : Z
   | O => (None, seed)
   | S fuel =>
       let '(s, seed') := sample_pass sp 0 empty_hps seed in
-      if duplicate tried (s_values s) then
+      (* a later entry of the same name may have overwritten the value an earlier entry's condition was checked against:
+         ensure_active_values drops what became inactive before the values are looked up among the tried ones
+         (ensure_active_values fills with defaults since the repair of F10/F17: the draw counter is not advanced here) *)
+      let v := fst (ensure_go draw sp sp (s_values s) 0) in
+      if duplicate tried v then
         if Nat.ltb max_collisions (S collisions) then (None, seed')
         else random_values fuel sp tried seed' (S collisions)
-      else (Some (s_values s), seed')
+      else (Some v, seed')
   end.
 
 (* _record_values after ensure_active_values has been applied to the trial *)
